@@ -18,11 +18,11 @@ SLEEPS = [0, 0, 0.5, 1, 1, 2, 3]
 def programs(draw, tier):
     big = tier == 'thorough'
     sleep = lambda: {'op': 'sleep', 'd': draw(st.sampled_from(SLEEPS))}  # noqa
-    objs = {'locks': 1, 'queues': 1, 'resources': [{'kind': 'cap', 'name': 'R', 'levels': {'a': 2}}]}
+    objs = {'locks': 1, 'queues': 1, 'flags': 1, 'resources': [{'kind': 'cap', 'name': 'R', 'levels': {'a': 2}}]}
     helpers = []
     # ---- payload of the subject task
     kind = draw(st.sampled_from(['sleeps', 'sleeps', 'lock', 'queue', 'borrow', 'scope', 'instant',
-                                 'mixed', 'cleanup', 'cleanup', 'nested_borrow']))
+                                 'mixed', 'cleanup', 'cleanup', 'nested_borrow', 'until_exit']))
     pay = []
     n = draw(st.integers(0, 4))
     for _ in range(n):
@@ -48,6 +48,21 @@ def programs(draw, tier):
             {'op': 'scope', 'children': [{'name': 's0c', 'steps': [
                 {'op': 'borrow', 'from': 'hp', 'amounts': {'a': draw(st.integers(1, 2))}, 'body': [sleep(), {'op': 'sleep', 'd': 2}]}]}],
              'body': [sleep()]}]})
+    both = None
+    if kind == 'until_exit':
+        # an until() block around a block whose exit suspends (giving back borrowed resources / a lock's helper /
+        # asynchronous clean-up): the notification may fire while the payload is already being unwound by a cancel
+        inner = draw(st.sampled_from(['borrow', 'cleanup', 'borrow']))
+        blk = {'op': 'borrow', 'r': 'R', 'amounts': {'a': 1}, 'body': [sleep(), {'op': 'sleep', 'd': 6}]} if inner == 'borrow' else \
+            {'op': 'cleanup', 'body': [sleep(), {'op': 'sleep', 'd': 6}], 'final': [{'op': 'instant'}, sleep()]}
+        pay.append({'op': 'until', 'name': 'U0', 'notif': ['flag', 0], 'children': [], 'body': [blk]})
+        pay.append({'op': 'sleep', 'd': draw(st.sampled_from([1, 2, 5]))})
+        ops = [{'op': 'cancel', 'ref': 's0', 'token': [777]}, {'op': 'set_flag', 'i': 0, 'v': True}]
+        if draw(st.integers(0, 3)) == 0:
+            ops.reverse()
+        if draw(st.integers(0, 3)) == 0:
+            ops.insert(1, {'op': 'instant'})
+        both = {'name': 'cf', 'steps': [{'op': 'sleep', 'd': draw(st.sampled_from([0.5, 1, 2, 3]))}] + ops}
     if kind in ('scope',):
         pay.append({'op': 'scope', 'children': [{'name': 's0c', 'steps': [sleep(), sleep()]}],
                     'body': [sleep()]})
@@ -79,6 +94,11 @@ def programs(draw, tier):
         children.append({'name': 'c0', 'steps': [sleep() for _ in range(draw(st.integers(0, 2)))] + [
             {'op': 'cancel', 'ref': draw(st.sampled_from(['s0'] + ['t%d' % i for i in range(nsib)])),
              'token': [900 + j]} for j in range(draw(st.integers(1, 2)))]})
+    if both is not None and draw(st.integers(0, 3)) > 0:
+        children.append(both)
+    elif both is not None:
+        helpers.append({'name': 'h_flag', 'steps': [{'op': 'sleep', 'd': draw(st.sampled_from([0.5, 1, 2, 3]))},
+                                                    {'op': 'set_flag', 'i': 0, 'v': True}]})
     order = draw(st.permutations(list(range(len(children)))))
     children = [children[i] for i in order]
     start = draw(st.sampled_from([0, 0, -1, 2.5]))
@@ -107,6 +127,17 @@ def programs(draw, tier):
                   for j in range(draw(st.integers(1, 6)))]
     double = draw(st.integers(0, 3)) == 0
     return {'prog': prog, 'faults': faults, 'targets': targets, 'double': double}
+
+
+def ops_of(steps):
+    """all operation names in a step list, nested blocks (but not other activities) included"""
+    out = set()
+    for st_ in steps:
+        out.add(st_['op'])
+        for key in ('body', 'final'):
+            if isinstance(st_.get(key), list):
+                out |= ops_of(st_[key])
+    return out
 
 
 def find_act(prog, name):
@@ -255,7 +286,7 @@ class C06(Check):
             elif cl:
                 out.features.add('cancel_after_done')
             created_cancel = bool(live) and live[0][2] == 'CREATED'
-            has_cleanup = any(s['op'] == 'cleanup' for s in find_act(prog, name)['steps'])
+            has_cleanup = 'cleanup' in ops_of(find_act(prog, name)['steps'])
             if live and started and started[0][0] > live[0][0] and name not in delayed:
                 out.fail('cancel_created', 'started_after_cancel', '%s: cancel() before its first statement, yet '
                          'its code ran afterwards;%s' % (name, ctx))
